@@ -28,6 +28,10 @@ type Pipe struct {
 	CutErr   error
 	// FlipAt >= 0 (set FlipOn) inverts the byte at that absolute offset of the delivered stream.
 	FlipAt int64
+	// one-shot overrides used when a behaviour of the specification is replayed: the next Write is
+	// split in two fragments / the next Read takes exactly this many fragments
+	ForceSplit bool
+	ForceMax   int
 
 	mu      sync.Mutex
 	cond    *sync.Cond
@@ -72,6 +76,9 @@ func (p *Pipe) Write(b []byte) (int, error) {
 	k := 0
 	if p.SplitAt != nil {
 		k = p.SplitAt(p.nw, len(data))
+	}
+	if p.ForceSplit {
+		k, p.ForceSplit = len(data)/2, false
 	}
 	nf := 1
 	if k > 0 && k < len(data) {
@@ -135,6 +142,9 @@ func (p *Pipe) Read(b []byte) (int, error) {
 	max := 0
 	if p.MaxFrags != nil {
 		max = p.MaxFrags(p.nr, len(p.frags))
+	}
+	if p.ForceMax > 0 {
+		max, p.ForceMax = p.ForceMax, 0
 	}
 	if max <= 0 || max > len(p.frags) {
 		max = len(p.frags)
@@ -208,6 +218,13 @@ func (p *Pipe) CloseRead() {
 	}
 	p.rclosed = true // fragments in flight stay: a writer still waiting for them to be taken fails
 	p.cond.Broadcast()
+	p.mu.Unlock()
+}
+
+// Force sets the one-shot overrides under the pipe's lock.
+func (p *Pipe) Force(split bool, max int) {
+	p.mu.Lock()
+	p.ForceSplit, p.ForceMax = split, max
 	p.mu.Unlock()
 }
 
